@@ -65,7 +65,8 @@ class Map(Node):
     return [v for _, v in self.items]
 
   def sketch(self, seen):
-    return '{' + ', '.join(f'{k!r}: {sk(v, seen)}' for k, v in self.items) + '}'
+    return (('DictObj' if self.typ == 'dictobj' else '') +
+            '{' + ', '.join(f'{k!r}: {sk(v, seen)}' for k, v in self.items) + '}')
 
 
 class B(Node):
@@ -255,6 +256,9 @@ def to_fiddle(n, memo=None):
   elif isinstance(n, Seq):
     items = [to_fiddle(c, memo) for c in n.items]
     r = SEQ_MAKERS[n.typ](items)
+  elif isinstance(n, Map) and n.typ == 'dictobj':
+    from vt import ser as _vser
+    r = _vser.DictObj(**{k: to_fiddle(v, memo) for k, v in n.items})
   elif isinstance(n, Map):
     r = collections.defaultdict(list) if n.typ == 'defaultdict' else {}
     for k, v in n.items:
@@ -286,6 +290,9 @@ def to_direct(n, memo=None):
   elif isinstance(n, Seq):
     items = [to_direct(c, memo) for c in n.items]
     r = SEQ_MAKERS[n.typ](items)
+  elif isinstance(n, Map) and n.typ == 'dictobj':
+    from vt import ser as _vser
+    r = _vser.DictObj(**{k: to_direct(v, memo) for k, v in n.items})
   elif isinstance(n, Map):
     r = collections.defaultdict(list) if n.typ == 'defaultdict' else {}
     for k, v in n.items:
@@ -379,6 +386,9 @@ class DagGen:
     if typ in ('dict', 'defaultdict'):
       keys = rng.sample(self.o.dict_keys, rng.randint(0, min(3, len(self.o.dict_keys))))
       n = Map(typ, [(k, self.child(depth + 1)) for k in keys])
+    elif typ == 'dictobj':
+      # an object serialized through its __dict__ (serialization.register_dict_based_object)
+      n = Map(typ, [(f'f{i}', self.child(depth + 1)) for i in range(rng.randint(1, 3))])
     elif typ in ('point', 'pair'):
       n = Seq(typ, [self.child(depth + 1), self.child(depth + 1)])
     else:
